@@ -151,7 +151,8 @@ FIELDS = [
         "wrongtype": [I(5), J('{"a": 1}'), F("1.5"), NA(J("[1, 2.5]"))],
         "wrongsyntax": [S("x,1"), S("c,"), S("c,1,a"), S(""), S("c")],
         "outofrange": [NA({"py": "symlist", "a": [[1, 32, 0]]}), NA({"py": "symlist", "a": [[-1, 31, -1]]}),
-                       NA({"py": "symlist", "a": [[0, 0, -1], [1, 31, 0]]}), S("c,200"), S("C,-1")]}),
+                       NA({"py": "symlist", "a": [[0, 0, -1], [1, 31, 0]]}), S("c,200"), S("C,-1"),
+                       NA(J("[]"))]}),
     # ---- positional fields, GFA1
     dict(name="name", kind="pos", dt="segment_name_gfa1", line="S\tA\t*", version="gfa1", classes={
         "valid": [S("B"), S("seg1"), S("x+y")],
@@ -182,7 +183,7 @@ FIELDS = [
          version="gfa1", classes={
         "valid": [S("A+,C-"), {"py": "ollist", "a": [["A", "+"], ["C", "-"]]}, S("X-,Y-,Z+")],
         "wrongtype": [I(5), J('{"a": 1}')],
-        "wrongsyntax": [S("A,B"), S("A+ B-"), S("A+,,B-"), S("")]}),
+        "wrongsyntax": [S("A,B"), S("A+ B-"), S("A+;B-"), S("")]}),
     dict(name="overlaps", kind="pos", dt="alignment_list_gfa1", line="P\tp1\tA+,B-,C+\t1M,1M", version="gfa1",
          classes={
         "valid": [S("1M,2M"), S("*,*"), {"py": "ciglist", "a": ["3M", "2M"]}],
@@ -339,8 +340,10 @@ def run_program(job):
             new = line._data.get(f, _MISSING)
             ev.update(k="set", c=cls, res=r, kept=("?" if v is old else ("T" if new is old else "F")))
         elif code == "get":
+            old = line._data.get(f, _MISSING)
             r, _, exc = guarded(lambda: line.get(f))
             ev["res"] = r
+            ev["kept"] = "T" if line._data.get(f, _MISSING) is old else "F"
         elif code == "write":
             r, _, exc = guarded(lambda: line.field_to_s(f))
             ev["res"] = r
